@@ -56,6 +56,7 @@ fn main() {
     let seed: u64 = args.get(4).and_then(|s| s.parse().ok()).unwrap_or(1);
     let rep = match suite.split_once(':') {
         Some(("fmt", f)) => fmt::suite(f, &prop, &tier, seed),
+        Some(("dimacs", "satlog")) => dimacs::satlog_suite(&prop, &tier, seed),
         Some(("dimacs", k)) => dimacs::suite(kind_of(k), &prop, &tier, seed),
         Some(("aiger", k)) => aiger::suite(k, &prop, &tier, seed),
         _ if suite == "reader" => reader::suite(&prop, &tier, seed),
